@@ -262,6 +262,10 @@ fn context_devs_inner() -> Vec<Dev> {
             s.syntax.push("iter-ext-trait".into());
             true
         }),
+        dev("context: the declaring module has #![forbid(unsafe_code)]", &["ctx", "evis", "dvis"], |s| {
+            s.syntax.push("forbid-unsafe".into());
+            true
+        }),
         dev("context: the enum's variants are glob-imported where it is declared (`use E::*;`)", &["ctx"], |s| {
             s.syntax.push("variants-in-scope".into());
             true
